@@ -7,8 +7,11 @@ Line-protocol driver for the C02 interleaving model (Model/VersionSet.lean).
   find <r> <k>           snapshot.FindReaders(k) + Get(k) on every reader
   load <r> <k>           snapshot.Load(k)
   close <r>              snapshot.Close() up to the yield after ref.Dec
-  run r<r> | run j<j>    continue a closing reader / a job up to its next park point
+  run r<r> | run j<j> [+j<k> ..]   continue a closing reader / a job up to its next park point
+                         (`at=blocked`: its next step needs the version-set mutex / compacting flag);
+                         +j<k>: jobs that were blocked and were released by this step, run next
   spawn flush k:t k:t .. | spawn compact | spawn rollup f f .. | spawn delobs
+  par j<a> j<b> ..       the commits of these jobs run concurrently (released together, unscheduled)
   cleanup f f ..         storeCache.Cleanup closed exactly these entries
 Every answer is `<result> | <state>`; unknown or ill-formed lines answer `bad-op`.
 The code variant (does removeVersion re-check the refcount?) is the regenerated fact
@@ -27,7 +30,7 @@ structure D where
   readers : List (Nat × Nat)   -- reader name ↦ snapshot id
   ok : Bool                    -- init seen
 
-def D.empty : D := { cfg := { recheck := Generated.C02.removeVersionRechecksRef }, st := St.init 0 0, readers := [], ok := false }
+def D.empty : D := { cfg := { recheck := Generated.C02.removeVersionRechecksRef, cloneLocked := Generated.C02.commitCloneUnderLock }, st := St.init 0 0, readers := [], ok := false }
 
 def sortedNat (l : List Nat) : List Nat := sortNat l
 def dedup (l : List Nat) : List Nat := l.foldr (fun x acc => if acc.contains x then acc else x :: acc) []
@@ -46,20 +49,26 @@ def answer (d : D) (res : String) : D × String := (d, res ++ " | " ++ showState
 
 def pcName : Pc → String
   | .start => "start" | .picked => "picked" | .reading => "reading" | .merging => "merging"
-  | .allocd => "allocd" | .ready => "ready" | .cLocked => "cLocked" | .cSnapped => "cSnapped"
+  | .allocd => "allocd" | .ready => "ready" | .cCloned => "cCloned" | .cLocked => "cLocked" | .cSnapped => "cSnapped"
   | .cSwapped => "cSwapped" | .cChecked => "cChecked" | .cPrevDone => "cPrevDone" | .cDecd => "cDecd"
   | .cRemoved => "cRemoved" | .cReleased => "cReleased" | .cUnlocked => "cUnlocked"
   | .closeOwn => "closeOwn" | .oDecd => "oDecd" | .oRemoved => "oRemoved" | .doStart => "doStart"
   | .doListed => "doListed" | .doPended => "doPended" | .doActived => "doActived" | .doRolled => "doRolled"
   | .doEvicted => "doEvicted" | .doRemoved => "doRemoved" | .done => "done"
 
-/-- run job j until it parks (fuel-bounded); none = the first step is not enabled -/
-def runJob (cfg : Cfg) (s : St) (j : Nat) : Nat → Bool → Option St
-  | 0, _ => some s
-  | fuel + 1, first =>
+/-- run job j until it parks (fuel-bounded) or its next step is not enabled (blocked on the
+version-set mutex / the compacting flag). The flag says whether the job ended at a park point it
+reached by at least one step. -/
+def runJob (cfg : Cfg) (s : St) (j : Nat) : Nat → St × Bool
+  | 0 => (s, false)
+  | fuel + 1 =>
     match step cfg s (.jstep j) with
-    | none => if first then none else some s
-    | some s' => if isPark (s'.job j).kind (s'.job j).pc then some s' else runJob cfg s' j fuel false
+    | none => (s, false)
+    | some s' => if isPark (s'.job j).kind (s'.job j).pc then (s', true) else runJob cfg s' j fuel
+
+/-- where a job stands after `runJob`: a park point, or blocked -/
+def atName (r : St × Bool) (j : Nat) : String :=
+  if r.2 then pcName (r.1.job j).pc else "blocked"
 
 def showRead (r : List (Nat × List Nat)) : String :=
   "ok toks=" ++ commaNat (sortNat (r.flatMap (·.2)))
@@ -100,10 +109,11 @@ def step' (d : D) (ws : List String) : D × String :=
   | "init" :: rest =>
     match rest.mapM String.toNat? with
     | some [v0, f0, th, ro] =>
-      answer { cfg := { recheck := Generated.C02.removeVersionRechecksRef, threshold := th, rollupOn := ro == 1 },
+      answer { cfg := { recheck := Generated.C02.removeVersionRechecksRef, cloneLocked := Generated.C02.commitCloneUnderLock,
+                        threshold := th, rollupOn := ro == 1 },
                st := St.init v0 f0, readers := [], ok := true } "ok"
-    | some [v0, f0, th, ro, rc] =>
-      answer { cfg := { recheck := rc == 1, threshold := th, rollupOn := ro == 1 },
+    | some [v0, f0, th, ro, rc, cl] =>
+      answer { cfg := { recheck := rc == 1, cloneLocked := cl == 1, threshold := th, rollupOn := ro == 1 },
                st := St.init v0 f0, readers := [], ok := true } "ok"
     | _ => (d, "bad-op")
   | _ =>
@@ -140,23 +150,47 @@ def step' (d : D) (ws : List String) : D × String :=
       | some i => act d (.sDec i) "at=decd"
       | none => (d, "bad-op")
     | none => (d, "bad-op")
-  | ["run", t] =>
-    match (t.drop 1).toString.toNat? with
-    | none => (d, "bad-op")
-    | some n =>
-      if t.startsWith "r" then
-        match sidOf d n with
-        | none => (d, "bad-op")
-        | some i =>
-          match (d.st.snap i).st with
-          | .decd _ => act d (.sRemove i) "at=removed"
-          | .removed => act d (.sRel i) "at=closed"
-          | _ => (d, "bad-op")
-      else if t.startsWith "j" then
-        match runJob d.cfg d.st n 64 true with
-        | some s' => answer { d with st := s' } ("at=" ++ pcName (s'.job n).pc)
-        | none => answer d "blocked"
+  | "run" :: t :: woken =>
+    -- `run X +jA +jB`: X runs to its next park point; the jobs that were blocked on the mutex and
+    -- were released by it then run to theirs (in the order given)
+    match (t.drop 1).toString.toNat?, woken.mapM (fun w => if w.startsWith "+j" then (w.drop 2).toString.toNat? else none) with
+    | some n, some ws =>
+      let first : Option (D × String) :=
+        if t.startsWith "r" then
+          match sidOf d n with
+          | none => none
+          | some i =>
+            match (d.st.snap i).st with
+            | .decd _ => (step d.cfg d.st (.sRemove i)).map (fun s' => ({ d with st := s' }, "removed"))
+            | .removed => (step d.cfg d.st (.sRel i)).map (fun s' => ({ d with st := s' }, "closed"))
+            | _ => none
+        else if t.startsWith "j" then
+          if n < d.st.nJob then
+            let r := runJob d.cfg d.st n 64
+            some ({ d with st := r.1 }, atName r n)
+          else none
+        else none
+      match first with
+      | none => (d, "bad-op")
+      | some (d1, r1) =>
+        if ws.all (fun w => w < d1.st.nJob) then
+          let (d2, rs) := ws.foldl (fun (acc : D × List String) w =>
+            let r := runJob acc.1.cfg acc.1.st w 64
+            ({ acc.1 with st := r.1 }, acc.2 ++ [atName r w])) (d1, [r1])
+          answer d2 ("at=" ++ "+".intercalate rs)
+        else (d, "bad-op")
+    | _, _ => (d, "bad-op")
+  | "par" :: ts =>
+    -- commits released together: their critical sections are serialised by the version-set mutex;
+    -- the resulting state does not depend on the order (flushes / rollup-done commits only)
+    match ts.mapM (fun w => if w.startsWith "j" then (w.drop 1).toString.toNat? else none) with
+    | some js =>
+      if js.all (fun j => j < d.st.nJob) then
+        let toDone (s : St) (j : Nat) : St := (List.range 24).foldl (fun s _ => (runJob d.cfg s j 64).1) s
+        let s' := js.foldl toDone d.st
+        answer { d with st := s' } ("at=" ++ "+".intercalate (js.map (fun j => if (s'.job j).pc == .done then "done" else "blocked")))
       else (d, "bad-op")
+    | none => (d, "bad-op")
   | "spawn" :: "flush" :: kvs =>
     match parsePayload kvs with
     | some p => if p.isEmpty then (d, "bad-op") else act d (.spawn .flush p) s!"job={d.st.nJob}"
